@@ -196,3 +196,84 @@ val exc_multi_slot : bcfg -> cls -> cls -> bool
 val capi_slot_in : (cls -> kind -> mstate) -> cls list -> cls option
 
 val run_capi : bcfg -> cls -> cls -> out
+
+type rcls =
+| RT
+| RX
+| RU
+
+type cop =
+| LT
+| LE
+| EQ
+| NE
+| GT
+| GE
+
+type cstate =
+| CU0
+| CN
+| CTr
+| CFa
+
+type rres =
+| RNI
+| RB of bool
+| RTypeErr
+| RFuel
+
+type rev = (rcls * cop) * bool
+
+type rM = rev list * rres
+
+type ropnd = bool * rcls
+
+val rcls_eqb : rcls -> rcls -> bool
+
+val swap : cop -> cop
+
+val all_cop : cop list
+
+val root_pref : cop list
+
+val rsub : rcls -> rcls -> bool
+
+val rchain : rcls -> rcls list
+
+val rbind : rM -> (rres -> rM) -> rM
+
+val rret : rres -> rM
+
+val rnot : rres -> rres
+
+val derive : cop -> cop -> bool * nat
+
+val is_ordering : cop -> bool
+
+val rst : (cop -> cstate) -> (cop -> cstate) -> rcls -> cop -> cstate
+
+val rdef : (cop -> cstate) -> (cop -> cstate) -> rcls -> cop -> bool
+
+val r_is_py : world -> bool -> rcls -> bool
+
+val ruser : (cop -> cstate) -> (cop -> cstate) -> rcls -> cop -> ropnd -> rM
+
+val root : (cop -> cstate) -> (cop -> cstate) -> cop option
+
+val any_def : (cop -> cstate) -> (cop -> cstate) -> rcls -> bool
+
+val comp :
+  world -> (cop -> cstate) -> (cop -> cstate) -> bool -> rcls -> cop -> rcls
+  option
+
+type rreq =
+| QDo of ropnd * ropnd * cop
+| QTp of rcls * ropnd * ropnd * cop
+
+val rev_ :
+  world -> (cop -> cstate) -> (cop -> cstate) -> bool -> bool -> cstate ->
+  cstate -> bool -> nat -> rreq -> rM
+
+val rc_run :
+  world -> (cop -> cstate) -> (cop -> cstate) -> bool -> bool -> cstate ->
+  cstate -> bool -> rcls -> rcls -> cop -> rM
